@@ -287,14 +287,28 @@ def h_lu(ctx, n, D, P, variant):
     ctx.eq(plain(A.data), X, 'input unchanged')
 
 
-def h_eigh(ctx, n, D, P, sigma=1, epsilon=None):
+def h_eigh(ctx, n, D, P, sigma=1, epsilon=None, offset=None):
+    """offset=k: eigenvalues 2**k + mu_i with 1 < mu_{i+1} - mu_i < 2, i.e. clearly distinct
+    (gap >> 1e-8) but tiny RELATIVE to their magnitude"""
     algopy = symx.load_algopy()
     A0s = []
     lams = []
     for p in range(P):
         Q0 = rot2(ctx, 'p%d' % p, sigma) if n == 2 else rot3(ctx, 'p%d' % p, sigma)
         lam = [ctx.var('lam%d_%d' % (p, i)) for i in range(n)]
+        if offset is not None:
+            ctx.assume(lam[0] > 0)
+            ctx.assume(lam[0] < 1)
+            for i in range(1, n):
+                ctx.assume(lam[i] - lam[i - 1] < 2)
+            big = (2.0 ** offset) if ctx.mode == 'float' else S.const(Fraction(2) ** offset)
+            mu = lam
+            lam = [big + m for m in mu]
+            for i in range(1, n):
+                ctx.assume(mu[i] - mu[i - 1] > 1)
         for i in range(1, n):
+            if offset is not None:
+                continue
             if epsilon is None:
                 ctx.assume(lam[i] - lam[i - 1] > 1)          # ascending, gap cleared with margin
             else:
@@ -571,6 +585,7 @@ def units(tier, seed):
         add('eigh/2x2/D%d,P1,sigma%d' % (Dq, sigma), 'h_eigh', n=2, D=Dq, P=1, sigma=sigma)
     add('eigh/2x2/D3,P2', 'h_eigh', n=2, D=3, P=2)
     add('eigh/3x3/D2,P1', 'h_eigh', n=3, D=2, P=1)
+    add('eigh/2x2 eigenvalues 2**30 + O(1), gap > 1/D3,P1', 'h_eigh', o={'float_tol': 1e-5, 'exact_eval': True}, n=2, D=3, P=1, offset=30)
     add('eigh/2x2/epsilon=1e-13/D3,P1', 'h_eigh', o={'float_tol': 1e-5}, n=2, D=3, P=1, epsilon='1/10000000000000')
     if tier != 'quick':
         add('eigh/2x2/D5,P1', 'h_eigh', n=2, D=5, P=1)
